@@ -274,3 +274,82 @@ def r5(ctx):
         pn = M.field_at_loop(p, "pinned")
         ctx.ob(f"pinned cleared[{label}]#{n}", pn == ("adt", "chess_bitboard::BitBoard", "BitBoard", (T.I(0, "u64"),)), f"make-move ({label}) enters the slider loop with pinned = {T.show(pn)[:60]}", site=site)
     ctx.floor("make-move paths", n, 100)
+
+
+# ------------------------------------------------------------------ R6: from-scratch computation, exact (modulo AC)
+from analysis.effects import acnorm
+from analysis import chessref as R
+
+
+@rule("C03.R6", "update_pin_info: sliders on the king's rays split into checkers / single blockers; knight and pawn checkers by the attack tables of the king square")
+def r6(ctx):
+    P = ctx.P
+    from rules.C01 import Ctxt, LOOKUPS, KING_SQ, NEXT, COLOR, fld, word, iter_domain
+    key = MG + "Board::update_pin_info"
+    ctx.used_body(key)
+    site = P.body(key).get("def_span")
+    eng = T.Engine(P, opaque=LOOKUPS | {KING_SQ, NEXT})
+    rets, loops, panics = eng.paths(key)
+    slf = ("param", 0, "self")
+    board = ("obj", slf)
+    for turn in ("White", "Black"):
+        oc = ("adt", COLOR, "Black" if turn == "White" else "White", ())
+        C = Ctxt(P, board)
+        opp = C.colors(oc)
+        # the king square is read after pinned/checkers were reset: the board term is the reset object; match king_sq by callee and colour argument only
+        def is_ksq(t):
+            return t[0] == "app" and t[1] == KING_SQ and t[2][1] in (fld(board, "turn"), ("adt", COLOR, turn, ()))
+        mine = [lf for lf in rets + loops if lf.known.get(fld(board, "turn")) == turn]
+        # final checkers contribution on the return paths
+        ok_final, shown = False, None
+        for lf in [l for l in mine if l.ret[0] != "loopback"]:
+            final = eng.freeze(lf.state, lf.ext.get(slf, board))
+            ch = T.get_path(final, (("f", 7, "checkers", None),))
+            names = [f["name"] for f in P.adt(MG + "Board")["variants"][0]["fields"]]
+            ch = T.get_path(final, (("f", names.index("checkers"), "checkers", None),))
+            w = ch[3][0] if ch[0] == "adt" else ch
+            shown = w
+            n = acnorm(w)
+            if n[0] != "ac" or n[1] != "BitOr":
+                continue
+            parts = list(n[2])
+            kn = [p for p in parts if any(s_[0] == "app" and s_[1] == "chess_lookup::knight_moves" for s_ in subterms(p))]
+            pw = [p for p in parts if any(s_[0] == "app" and s_[1] == "chess_lookup::pawn_attacks_moves" for s_ in subterms(p))]
+            rest = [p for p in parts if p not in kn and p not in pw]
+            def ok_part(p, lookup, piece, extra_arg):
+                apps = [s_ for s_ in subterms(p) if s_[0] == "app" and s_[1] == "chess_lookup::" + lookup]
+                if len(apps) != 1 or not is_ksq(apps[0][2][0]):
+                    return False
+                if extra_arg is not None and apps[0][2][1] not in extra_arg:
+                    return False
+                return p == acnorm(C.AND(word(apps[0]), C.pieces(piece), opp))
+            ok_final = (len(kn) == 1 and len(pw) == 1 and ok_part(kn[0], "knight_moves", "Knight", None)
+                        and ok_part(pw[0], "pawn_attacks_moves", "Pawn", (fld(board, "turn"), ("adt", COLOR, turn, ()))) and len(rest) == 1 and rest[0][0] in ("loopvar", "field", "int"))
+        ctx.ob(f"direct checkers[{turn}]", ok_final, f"update_pin_info ({turn} to move) ends with checkers = {T.show(shown)[:260] if shown else None}; expected (slider checkers) | "
+               "knight_moves(own king) & enemy knights | pawn_attacks_moves(own king, OWN colour) & enemy pawns", site=site, sample="checkers |= knights | pawns attacking the king")
+        # slider loop domain and classification
+        doms = set()
+        for lf in mine:
+            for t, v in lf.cond:
+                if t[0] == "discr" and t[1][0] == "app" and t[1][1] == NEXT:
+                    a = t[1][2][0]
+                    doms.add(acnorm(iter_domain(a[1] if a[0] == "refv" else a)))
+        q = C.pieces("Queen")
+        ksqs = [s_ for d in doms for s_ in subterms(d) if is_ksq(s_)]
+        ok_dom = False
+        if ksqs:
+            k0 = ksqs[0]
+            ray = lambda n: word(("app", "chess_lookup::" + n, (k0,)))
+            want = acnorm(C.AND(opp, C.OR(C.AND(C.OR(C.pieces("Bishop"), q), ray("bishop_rays")), C.AND(C.OR(C.pieces("Rook"), q), ray("rook_rays")))))
+            ok_dom = doms == {want}
+        ctx.ob(f"slider candidates[{turn}]", ok_dom, f"update_pin_info ({turn}) scans {[T.show(d)[:160] for d in doms]}; expected enemy & ((bishops|queens) & bishop_rays(king) | (rooks|queens) & rook_rays(king))",
+               site=site, sample="enemy sliders on the king's rays")
+        btw_ok = False
+        for lf in mine:
+            for t, v in lf.cond:
+                if t[0] == "bin" and t[1] == "Eq" and T.I(0, "u64") in (t[2], t[3]):
+                    x = t[2] if t[3] == T.I(0, "u64") else t[3]
+                    b = [s_ for s_ in subterms(x) if s_[0] == "app" and s_[1] == "chess_lookup::between"]
+                    if len(b) == 1 and is_ksq(b[0][2][0]) and acnorm(x) == acnorm(C.AND(C.all(), word(b[0]))):
+                        btw_ok = True
+        ctx.ob(f"blockers on full occupancy[{turn}]", btw_ok, f"update_pin_info ({turn}): blockers are not computed as occupancy & between(king, slider)", site=site)
